@@ -14,3 +14,16 @@ chk("C01", "model-based testing of generated assignment histories against a pull
     "compared with an independent pull-model re-evaluation in true data-flow order.",
     TRUST + " Known finding K1 (ordering cycle through a shared nested container) is excluded by construction and counted.",
     "DESIGN.md 4/C01")
+
+chk("C02", "trace-based model testing: generated task graphs, harness-owned start-set permutations, trace oracle with two-sided trigger bounds",
+    "Generated histories over logging containers, one observed assignment repeated under drawn permutations of the sort's start set and "
+    "several hash seeds; the ordered write/call trace must show the assigned location first, L <= ran <= U, each task once, every true "
+    "data-flow edge respected; cyclic graphs: termination and at-most-once.",
+    TRUST + " K1-class and cyclic graphs only get the at-most-once / termination clauses.", "DESIGN.md 4/C02",
+    engine="hypothesis")
+
+chk("C03", "stateful differential testing against a freshly built manager plus a two-sided index invariant",
+    "Generated register/unregister/assign/load-free histories; after every step the supports of the four reverse indices must equal a "
+    "derivation from the tasks' public fields (two-sided, stronger than verify()) and verify() must pass; then every query and the "
+    "reaction to follow-up assignments are compared with fresh managers built (in two orders) from only the surviving definitions.",
+    TRUST, "DESIGN.md 4/C03")
